@@ -593,17 +593,13 @@ func c23Judge(c c23Case, tree bool, r c23Result) (v c23Verdict, verdict error) {
 			if len(r.removed) == 0 {
 				return fail("%s: unrelated empty directories %q disappeared although nothing was removed at all", class, prunedForNothing)
 			}
-			// F-C23-1: EnsureTreeState queues a directory for pruning when the
-			// *cumulative* removed list is non-empty (synctree.go: `if len(removed) != 0`
+			// F-C23-1 (fixed in /repo by 1a0a6ff): EnsureTreeState queued a directory for
+			// pruning when the *cumulative* removed list was non-empty (`len(removed) != 0`
 			// instead of the directory's own list), so whether an unrelated empty
-			// directory survives depends on the map iteration order.
-			if verifkit.IsKnown("C23", "F-C23-1") {
-				lab["known-F-C23-1-tolerated"] = true
-			} else {
-				pendingKnown = verifkit.Knownf("F-C23-1", "%s: pre-existing empty directories %q, in and below which no managed file was removed, were removed "+
-					"(some other directory had removals %q); T1 prunes only directories where files were removed, and the outcome depends on map order",
-					class, prunedForNothing, r.removed)
-			}
+			// directory survived depended on the map iteration order.
+			pendingKnown = verifkit.Knownf("F-C23-1", "%s: pre-existing empty directories %q, in and below which no managed file was removed, were removed "+
+				"(some other directory had removals %q); T1 prunes only directories where files were removed, and the outcome depends on map order",
+				class, prunedForNothing, r.removed)
 		}
 		for _, p := range c23SortedPaths(after) {
 			if after[p].Kind == "dir" && !allDirs[p] {
